@@ -124,12 +124,24 @@ def granular_type(rng, depth, enames, prev):
     return ("opt", granular_type(rng, depth - 1, enames, prev))
 
 
+# struct names of src/fcp/reflection/reflection.fcp that are also usable as C++ identifiers next to the support headers
+REFLECTION_NAMES = ["Type", "Method", "Impl", "Enumeration", "MetaData", "StructField", "DictField", "SignalBlock", "Fcp"]
+VAR_CAN_SHAPES = [
+    [("seq", ("u", 8)), ("reading", ("opt", ("u", 16)))],
+    [("n", ("u", 8)), ("s", ("str",))],
+    [("d", ("dyn", ("u", 8)))],
+    [("a", ("opt", ("u", 8))), ("b", ("opt", ("i", 16))), ("c", ("u", 4))],
+    [("k", ("u", 3)), ("l", ("dyn", ("u", 4)))],
+]
+
+
 def gen_batch(rng, nstructs=14, can=False, granular_share=0.0, big=False):
     d = gen.Desc()
     d.enums = [("G0", [("GA", 0), ("GB", 200), ("GC", 255)])] + gen.gen_enums(rng, 2, big=big)
     gprev = []
     enames = [e[0] for e in d.enums]
     extra = []
+    taken = set()
     for s in range(nstructs):
         prev = [x[0] for x in d.structs]
         gran = rng.random() < granular_share
@@ -137,9 +149,19 @@ def gen_batch(rng, nstructs=14, can=False, granular_share=0.0, big=False):
         ids = rng.sample(range(0, 3 * nf + 1), nf)
         if rng.random() < 0.5:
             ids.sort()
+        if rng.random() < 0.25:
+            # large ids whose low bytes collide or run against the real order (field ids are 32-bit in the reflection record)
+            ids = gen.big_ids(rng, nf)
         fields = []
         total = 0
-        for j in range(nf):
+        var_can = can and rng.random() < 0.25
+        if var_can:
+            # variable-size payloads of at most 8 bytes: the DLC follows the value, message by message
+            fields = rng.choice(VAR_CAN_SHAPES)
+            fields = [(fn, ids[j] if j < len(ids) else 100 + j, t) for j, (fn, t) in enumerate(fields)]
+            if len({f[1] for f in fields}) != len(fields):
+                fields = [(fn, j, t) for j, (fn, _, t) in enumerate(fields)]
+        for j in range(nf if not var_can else 0):
             if can and gran:
                 t = rng.choice([("u", 8), ("i", 8), ("u", 16), ("i", 16), ("u", 32), ("i", 32), ("f32",), ("enum", "G0")])
                 w = 32 if t[0] == "f32" else 8 if t[0] == "enum" else t[1]
@@ -160,6 +182,12 @@ def gen_batch(rng, nstructs=14, can=False, granular_share=0.0, big=False):
         if not fields:
             fields = [("f0", 0, ("u", 8))]
         name = rng.choice([f"S{s}", f"Msg{s}", f"Telemetry{s}"]) if can else f"S{s}"
+        if not can and rng.random() < 0.12:
+            # a user struct named like a struct of the built-in reflection schema (rendered by the same generator run)
+            cand = rng.choice(REFLECTION_NAMES)
+            if cand not in taken:
+                name = cand
+                taken.add(cand)
         d.structs.append((name, fields))
         if gran:
             gprev.append(name)
@@ -463,10 +491,14 @@ def exercise(rep, prop, rng, d, g, build, nv, tier, twin_of=None, fixed=None):
     # canonical bytes from the Lean specification
     model = run_codec_grouped([(wire, n, {"value": mv}) for n, py, mv in jobs])
     lines = []
+    # the reflection-loaded codec answers too: always for C13; for C15 (field order in every back end) when the schema's
+    # enumerators fit the i32 of the reflection record (recorded finding enumerator-beyond-i32 otherwise)
+    dyn = prop == "C13" or (prop == "C15" and all(-2 ** 31 <= v < 2 ** 31 for _, es in d.enums for _, v in es))
+    rep.hist("run_time_codec_exercised", bool(dyn))
     for n, py, mv in jobs:
         t = ("struct", n)
         lines.append("SE " + n + " " + json.dumps(json_value(d, t, py)))
-        if prop in ("C13",):
+        if dyn:
             lines.append("DE " + n + " " + json.dumps(json_value(d, t, py, dynamic=True)))
     rc, out, err = talk(exe, os.path.join(ddir, "schema.bin"), lines)
     if len(out) != len(lines):
@@ -480,7 +512,7 @@ def exercise(rep, prop, rng, d, g, build, nv, tier, twin_of=None, fixed=None):
     for (n, py, mv), m in zip(jobs, model):
         t = ("struct", n)
         se = next(it)
-        de = next(it) if prop == "C13" else None
+        de = next(it) if dyn else None
         rep.cov["evaluations"] += 1
         base = {"schema": text, "struct": n, "value": mv, "json": json_value(d, t, py)}
         spec = m.get("spec_bytes")
@@ -500,7 +532,7 @@ def exercise(rep, prop, rng, d, g, build, nv, tier, twin_of=None, fixed=None):
             continue
         dec_lines.append("SD " + n + " " + hexs(spec))
         dec_meta.append(("SD", n, py, mv))
-        if prop == "C13":
+        if dyn:
             rep.hist("dynamic_encode_compared", "byte-granular" if byte_granular(d, t) else "sub-byte")
             if byte_granular(d, t) != m.get("byte_granular"):
                 rep.violation(dict(base, kind="harness", what="ByteGranular predicate of the harness and of Lean differ"), no_input=True)
@@ -626,9 +658,10 @@ def exercise_can(rep, rng, d, g, build, jobs, model):
     meta = []
     items = []
     for (n, py, mv), m in zip(jobs, model):
-        if n not in impls or not m.get("wf"):
+        if n not in impls or not m.get("wf") or len(m.get("spec_bytes", [])) > 8:
             continue
         t = ("struct", n)
+        rep.hist("can_payload_bytes", len(m["spec_bytes"]))
         for which in ("s", "d"):
             if which == "d" and not m["byte_granular"] and len(m["dyn_bytes"]) > 8:
                 # the whole-byte encoding does not fit the 8-byte data field: the copy would run past it
